@@ -63,6 +63,7 @@ type event struct {
 	lists map[string][]rule
 	items []repItem
 	tk    string // tx|rx
+	fired bool   // srrsp: the request's retransmission timer has already fired when the response is processed
 }
 
 var estKeys = []string{"far", "qer", "urr", "bar", "pdr"}
@@ -172,6 +173,9 @@ func (e *event) render() string {
 			}
 		case "del", "srrsp":
 			fmt.Fprintf(&b, " seq=%d seid=%x", e.seq, e.seid)
+			if e.fired {
+				b.WriteString(" fired=1")
+			}
 		case "other", "orsp":
 			fmt.Fprintf(&b, " seq=%d type=%d", e.seq, e.mtype)
 		case "junk":
@@ -243,6 +247,7 @@ func parseEvent(line string) (*event, error) {
 			e.cp = &v
 		}
 		e.mtype = int(u64("type", 10))
+		e.fired = m["fired"] == "1"
 		if h, ok := m["hex"]; ok && h != "-" {
 			e.raw, _ = hex.DecodeString(h)
 		}
